@@ -69,6 +69,33 @@ theorem plan_count (perms : List Perm) (run skip : Node) (insts : List Inst) (hn
       · by_cases hm : p.inst ∈ is <;> simp [ha, hi, hm]
     · simp [ha]
 
+/-- Exactly once, in the words of the property: when the library holds every permutation once
+(C07 `names_unique`: full names are pairwise distinct, so the list has no duplicates) and the
+server instances are listed without repetition, every selected permutation whose instance is
+served is handed out exactly once, and every other permutation never. -/
+theorem plan_exactly_once (perms : List Perm) (run skip : Node) (insts : List Inst)
+    (hp : perms.Nodup) (hn : insts.Nodup) (p : Perm) (hmem : p ∈ perms) :
+    ((plan perms run skip insts).flatMap (·.2)).count p =
+      if accept run skip p.name = true ∧ p.inst ∈ insts then 1 else 0 := by
+  have hone : ∀ (l : List Perm), l.Nodup → p ∈ l → l.count p = 1 := by
+    intro l
+    induction l with
+    | nil => intro _ h; simp at h
+    | cons x xs ih =>
+      intro hnd hm
+      have hx := List.nodup_cons.mp hnd
+      by_cases hxp : x = p
+      · subst hxp
+        have : xs.count x = 0 := List.count_eq_zero_of_not_mem hx.1
+        simp [List.count_cons, this]
+      · have hm' : p ∈ xs := by
+          rcases List.mem_cons.mp hm with h | h
+          · exact absurd h.symm hxp
+          · exact h
+        have hbeq : (x == p) = false := by simpa using hxp
+        simp [List.count_cons, hbeq, ih hx.2 hm']
+  rw [plan_count perms run skip insts hn p, hone perms hp hmem]
+
 /-- a permutation of a batch was selected by the filter in the sense of glob semantics (C08) -/
 theorem plan_selected (perms : List Perm) (run skip : Node) (insts : List Inst) (i : Inst) (b : List Perm)
     (hb : (i, b) ∈ plan perms run skip insts) (p : Perm) (hp : p ∈ b) :
@@ -155,5 +182,6 @@ private def pb : Perm := ⟨["S", "b"], ⟨2, 2, false, false⟩⟩
 example : plan [pa, pb] [["S", "*"]] [["**", "b"]] [⟨1, 1, false, false⟩, ⟨2, 2, false, false⟩] =
     [(⟨1, 1, false, false⟩, [pa])] := by decide
 example : runSchedule 1 (List.replicate 2 PC.idle) [0, 1, 0, 0, 1, 0, 1] = [.done, .holding] := by decide
+example : [pa, pb].Nodup ∧ ((plan [pa, pb] [] [] [⟨1, 1, false, false⟩, ⟨2, 2, false, false⟩]).flatMap (·.2)).count pb = 1 := by decide
 
 end ConfModel.Props.C05
